@@ -227,7 +227,13 @@ impl DnaString {
         let mut dna_string = DnaString::new();
 
         for c in dna.chars() {
-            match dna_only_base_to_bits(c as u8) {
+            // a non-ASCII char is not an ACGT character (`c as u8` alone would keep only its low byte)
+            let bits = if c.is_ascii() {
+                dna_only_base_to_bits(c as u8)
+            } else {
+                None
+            };
+            match bits {
                 Some(bit) => {
                     dna_string.push(bit);
                 }
